@@ -38,7 +38,7 @@ from collections import OrderedDict
 from pvf.bounded import common
 
 pp = common.load_repo()
-from prettyprinter import pformat, register_pretty, pretty_call      # noqa: E402
+from prettyprinter import pformat, register_pretty, pretty_call, comment, trailing_comment      # noqa: E402
 
 NSHARDS = 64
 WIDTH_CYCLE = [79, 20, 1]
@@ -614,6 +614,58 @@ def parse_spec(expr):
 _DOMAIN = {}
 
 
+# ---------------------------------------------------------------------------------------------
+# commented values: "for any printable value - including commented values": a comment must not move the cut
+COMMENT_TEXT = 'a remark that is long enough to be moved onto its own line above the value'
+COMMENT_WIDTHS = [200, 40, 12]
+
+
+def decorate(value, rng, p=0.5):
+    """the same value with comment() around some list / tuple elements and dict values and trailing_comment() around some
+    containers (sets and dict keys are left alone: annotations are not hashable stand-ins)"""
+    t = type(value)
+    if t in (list, tuple):
+        out = t(comment(decorate(x, rng, p), COMMENT_TEXT) if rng.random() < p else decorate(x, rng, p) for x in value)
+    elif t is dict:
+        out = {k: (comment(decorate(v, rng, p), COMMENT_TEXT) if rng.random() < p else decorate(v, rng, p)) for k, v in value.items()}
+    else:
+        return value
+    if out and rng.random() < 0.2:
+        return trailing_comment(out, 'closing remark')
+    return out
+
+
+def _code_dump(text):
+    return ast.dump(parse_out(text))
+
+
+def check_commented(spec, value, depths, rng_seed, widths=None):
+    """ast(pformat(commented, depth=d, width=w)) == ast(pformat(plain, depth=d, width=w)) for every d, w"""
+    vs = []
+    n = 0
+    dec = decorate(value, random.Random(rng_seed))
+    expr = expr_of(spec)
+    for d in depths:
+        for w in (widths or COMMENT_WIDTHS):
+            n += 1
+            kwargs = {'depth': d, 'width': w}
+            case = {'expr': expr, 'kwargs': kwargs, 'commented': True, 'rng': rng_seed}
+            try:
+                with common.caught_warnings() as cw:
+                    plain = pformat(value, **kwargs)
+                    got = pformat(dec, **kwargs)
+                a, b = _code_dump(plain), _code_dump(got)
+            except Exception as e:      # noqa
+                vs.append(dict(kind='commented-raises', case=case, observed='%s: %s' % (type(e).__name__, str(e)[:200]),
+                               expected='a valid expression', tags=['site:commented']))
+                continue
+            if cw.messages:
+                vs.append(dict(kind='commented-warning', case=case, observed=cw.messages[0][:300], expected='no warning', tags=['site:commented']))
+            if a != b:
+                vs.append(dict(kind='commented-cut-differs', case=case, observed=got[:400], expected=plain[:400], tags=['site:commented']))
+    return n, vs
+
+
 def _domain(tier, seed):
     if (tier, seed) not in _DOMAIN:
         _DOMAIN[(tier, seed)] = domain(tier, seed)
@@ -658,6 +710,18 @@ def _shard(arg):
                 size = len(expr)
                 if key not in best or size < best[key][0]:
                     best[key] = (size, v)
+        # commented variant of the same value (every 3rd value in the quick tier; containers with lists / tuples / dicts only)
+        if ftags[0] in ('spine', 'random', 'deep') and (tier == 'thorough' or i % 3 == 0) and height <= 12:
+            n, vs = check_commented(spec, value, [0, 1, 2, 3, None] if height <= 5 else [1, 3, None], seed * 1000003 + i)
+            acc['evaluations'] += n
+            cnt['family:commented'] = cnt.get('family:commented', 0) + n
+            for v in vs:
+                cnt['violations_all'] = cnt.get('violations_all', 0) + 1
+                cnt['violations:' + v['kind']] = cnt.get('violations:' + v['kind'], 0) + 1
+                key = (v['kind'], tuple(v['tags']))
+                size = len(expr)
+                if key not in best or size < best[key][0]:
+                    best[key] = (size, v)
     acc['violations'] = [b[1] for b in best.values()]
     cnt['cpu_s'] = time.process_time() - t0
     return acc
@@ -687,6 +751,9 @@ def run(tier, seed, jobs=16):
         'depths': '0 .. height + 2 and None (spine, random); the nesting of the atom (atoms)',
         'widths': 'one width per value, cycling through %r' % WIDTH_CYCLE,
         'leaves': 'distinct ints 101.. and strs \'s101\'.. (alternating), searched textually',
+        'commented': 'every 3rd value (quick) / every value (thorough) once more with comment() around random list / tuple elements and '
+                     'dict values and trailing_comment() around random containers: syntax tree equal to the uncommented print at depths '
+                     '0..3 and None, widths %r' % COMMENT_WIDTHS,
         'not_covered': 'height above %d, containers with more than 3 elements, other registered types, '
                        'subclasses of the builtin containers, multi-line strings' % H,
         'seed': seed,
@@ -705,7 +772,11 @@ def replay(case):
         spec = parse_spec(case['expr'])
     except Exception as e:                                       # noqa
         return {'violated': False, 'detail': 'cannot rebuild the input: %s' % e}
-    vs = check_spec(spec, dict(case.get('kwargs') or {}))
+    if case.get('commented'):
+        kw = dict(case.get('kwargs') or {})
+        n, vs = check_commented(spec, eval(expr_of(spec), dict(NS)), [kw.get('depth')], case.get('rng', 0), widths=[kw.get('width', 79)])
+    else:
+        vs = check_spec(spec, dict(case.get('kwargs') or {}))
     if vs:
         return {'violated': True, 'detail': '; '.join('%s %s: observed %s; expected %s'
                                                       % (v['kind'], v['tags'], v['observed'], v['expected'])
